@@ -14,17 +14,30 @@ type RefFailure struct {
 	Path []string // aliases and list indices, root first (without the query name)
 	// Batchable: the failing field is not on the root object (could be executed as a batch)
 	Type, Field string
+	// AfterNil: some list on the way holds a nil entry before the element the failure lies under
+	AfterNil bool
+}
+
+// Reached is one resolver result the evaluation used: a function field of an object at a response path.
+type Reached struct {
+	Obj      *Obj
+	Key      string
+	Path     []string
+	AfterNil bool
 }
 
 type RefResult struct {
 	JSON     interface{}
 	Failures []RefFailure
+	Reached  []Reached
 }
 
 type refEval struct {
 	spec  *SchemaSpec
 	frags map[string]*FragDef
 	fails []RefFailure
+	afterNil bool
+	reached  []Reached
 }
 
 func RefEval(spec *SchemaSpec, d *Data, q *Query) RefResult {
@@ -33,7 +46,7 @@ func RefEval(spec *SchemaSpec, d *Data, q *Query) RefResult {
 		e.frags[f.Name] = f
 	}
 	j := e.object("Query", d.Root, [][]*Node{q.Body}, nil, false)
-	return RefResult{JSON: j, Failures: e.fails}
+	return RefResult{JSON: j, Failures: e.fails, Reached: e.reached}
 }
 
 // fields collects the field nodes that apply to an object of type typ: those of the sets and of
@@ -88,8 +101,11 @@ func (e *refEval) object(typ string, o *Obj, sets [][]*Node, path []string, topU
 		}
 		oc := o.Res[key]
 		p := append(append([]string{}, path...), alias)
+		if !f.Struct {
+			e.reached = append(e.reached, Reached{Obj: o, Key: key, Path: p, AfterNil: e.afterNil})
+		}
 		if oc.Fail != "" {
-			e.fails = append(e.fails, RefFailure{Kind: oc.Fail, Msg: oc.Msg, Path: p, Type: typ, Field: first.Name})
+			e.fails = append(e.fails, RefFailure{Kind: oc.Fail, Msg: oc.Msg, Path: p, Type: typ, Field: first.Name, AfterNil: e.afterNil})
 			res[alias] = nil
 			continue
 		}
@@ -112,9 +128,14 @@ func (e *refEval) value(t TRef, v *Val, subs [][]*Node, path []string) interface
 	case "list":
 		out := []interface{}{}
 		if v != nil && v.K == "list" {
+			saved := e.afterNil
 			for i, x := range v.L {
 				out = append(out, e.value(*t.Elem, x, subs, append(append([]string{}, path...), strconv.Itoa(i))))
+				if x == nil || x.K == "null" {
+					e.afterNil = true
+				}
 			}
+			e.afterNil = saved
 		}
 		return out
 	}
